@@ -92,10 +92,10 @@ theorem LK.remoteOf (h : LK T0 now ex a a') {u : Nat} {r : Cand} (hr : a.remoteO
   h.remotes.find? (fun c => c.uid == u) (fun c => c.uid == u) (fun c c' e => by simp [ckey_uid e.key]) hr
 
 theorem LK.pairById (h : LK T0 now ex a a') {id : Nat} {p : Pair} (hp : a.pairById id = some p) :
-    ∃ p', a'.pairById id = some p' ∧ PKeep p p' :=
+    ∃ p', a'.pairById id = some p' ∧ PKeep (LInv a → a'.selected.isSome = true) p p' :=
   h.pairs.find? (fun q => q.id == id) (fun q => q.id == id) (fun q q' e => by simp [e.id]) hp
 
-theorem LK.mem_pair (h : LK T0 now ex a a') {p : Pair} (hp : p ∈ a.checklist) : ∃ p' ∈ a'.checklist, PKeep p p' :=
+theorem LK.mem_pair (h : LK T0 now ex a a') {p : Pair} (hp : p ∈ a.checklist) : ∃ p' ∈ a'.checklist, PKeep (LInv a → a'.selected.isSome = true) p p' :=
   h.pairs.mem hp
 
 /-- every pair's ends resolve (true at step boundaries: `AgentC06.Inv`) -/
@@ -104,10 +104,10 @@ def EndsOK (a : Agent) : Prop := ∀ p ∈ a.checklist, (a.localOf p.l).isSome =
 /-- `findPair` is stable: the first pair joining candidates `Equal` to `l`, `r` stays the first one. -/
 theorem LK.findPair (h : LK T0 now ex a a') (he : EndsOK a) {l r l' r' : Cand} (hl : ckey l' = ckey l)
     (hr : ckey r' = ckey r) {p : Pair} (hp : a.findPair l r = some p) :
-    ∃ p', a'.findPair l' r' = some p' ∧ PKeep p p' := by
+    ∃ p', a'.findPair l' r' = some p' ∧ PKeep (LInv a → a'.selected.isSome = true) p p' := by
   unfold Agent.findPair at hp ⊢
   -- the predicate agrees on related pairs of the old checklist; restrict to members
-  have key : ∀ q ∈ a.checklist, ∀ q', PKeep q q' →
+  have key : ∀ q ∈ a.checklist, ∀ q', PKeep (LInv a → a'.selected.isSome = true) q q' →
       (match a'.localOf q'.l, a'.remoteOf q'.r with
         | some pl, some pr => pl.equal l' && pr.equal r'
         | _, _ => false) =
@@ -123,13 +123,13 @@ theorem LK.findPair (h : LK T0 now ex a a') (he : EndsOK a) {l r l' r' : Cand} (
     rw [hk.l, hk.r, hpl', hpr', hpl, hpr]
     simp only [ckey_equal el hl, ckey_equal er.key hr]
   -- first-match induction with membership
-  have gen : ∀ (l1 l2 : List Pair), IdxKeep PKeep l1 l2 → (∀ q ∈ l1, q ∈ a.checklist) →
+  have gen : ∀ (l1 l2 : List Pair), IdxKeep (PKeep (LInv a → a'.selected.isSome = true)) l1 l2 → (∀ q ∈ l1, q ∈ a.checklist) →
       ∀ p, l1.find? (fun q => match a.localOf q.l, a.remoteOf q.r with
         | some pl, some pr => pl.equal l && pr.equal r
         | _, _ => false) = some p →
       ∃ p', l2.find? (fun q => match a'.localOf q.l, a'.remoteOf q.r with
         | some pl, some pr => pl.equal l' && pr.equal r'
-        | _, _ => false) = some p' ∧ PKeep p p' := by
+        | _, _ => false) = some p' ∧ PKeep (LInv a → a'.selected.isSome = true) p p' := by
     intro l1
     induction l1 with
     | nil => intro l2 _ _ p hp; simp at hp
